@@ -164,7 +164,7 @@ func handleViolations(spec *Spec, ev *Evidence, viols []*Violation) (int, string
 		confirmed := false
 		var lastOut string
 		for i, v := range vs {
-			if i >= 3 {
+			if i >= 6 {
 				break
 			}
 			id := fmt.Sprintf("%s-%d", spec.Property, n)
